@@ -12,8 +12,8 @@ import shutil
 
 from . import tlc
 
-_RE_ACCEPT = re.compile(r'^<<"ACCEPT", (\d+), \{(.*)\}>>$')
-_RE_AT = re.compile(r'^<<"AT", (\d+), (\d+), (.*)>>$')
+_RE_ACCEPT = re.compile(r'^<<\s*"ACCEPT",\s*(\d+),\s*\{(.*)\}\s*>>$')
+_RE_AT = re.compile(r'^<<\s*"AT",\s*(\d+),\s*(\d+),\s*(.*?)\s*>>$')
 
 
 class Verdict:
